@@ -79,6 +79,7 @@ class FakeSocket:
         self.calls = dict(send=0, recv=0)
         self.last_io_step = None    # net.now at the last byte moved in either direction
         self.io_tymes = []          # tymes (net.tymth) at which bytes moved through this socket
+        self.arr_tymes = []         # tymes (net.tymth) at which bytes from the peer became readable here
         self.closed_tyme = None
         self.was_connected = False
         net.ev("socket", self.sid, self.owner)
@@ -517,6 +518,8 @@ class SimNet:
                     else:
                         p.rx.extend(d)
                         moved += 1
+                        if d and self.tymth is not None:
+                            rcv.arr_tymes.append(self.tymth())
         return moved
 
     def quiet(self):
